@@ -149,7 +149,16 @@ func runC17(a *Analyzer, r *Results) {
 				continue
 			}
 			ct := p.c.Term(l.Coll)
-			if !strings.Contains(ct.Key(), cache.Key()) {
+			mentions := strings.Contains(ct.Key(), cache.Key())
+			if phi, ok := l.Coll.(*ssa.Phi); ok && !mentions {
+				// a backlog that is conditionally replaced (e.g. by nil) is still the backlog
+				for _, e := range phi.Edges {
+					if strings.Contains(p.c.Term(e).Key(), cache.Key()) {
+						mentions = true
+					}
+				}
+			}
+			if !mentions {
 				continue
 			}
 			loops = append(loops, drainLoop{p, l})
@@ -166,17 +175,78 @@ func runC17(a *Analyzer, r *Results) {
 					w := a.callWrites(call)
 					reentrant := w["rawmessagesfilter.RawMessageFilter.consensusMessagesHandler"] || w["state.State.height"] || w["rawmessagesfilter.RawMessageFilter.futureCache"]
 					if !reentrant {
-						r.Check("F7", pr, "a delivery inside the drain loop either cannot change the handler/height/cache, or is preceded in the same iteration by a fresh height test that leaves the loop", "ConsumeCacheMessages|"+calleeLabel(&call.Call), a.P.InstrPos(in), true, "", "Re")
+						r.Check("F7", props("C17", "C13", "C08"), "a delivery inside the drain loop either cannot change the handler/height/cache, or is preceded in the same iteration by a fresh height test that leaves the loop", "ConsumeCacheMessages|"+calleeLabel(&call.Call), a.P.InstrPos(in), true, "", "Re")
 						continue
 					}
 					ok2, why := drainGuard(a, p.c, l, call)
-					r.Check("F7", pr, "a delivery inside the drain loop either cannot change the handler/height/cache, or is preceded in the same iteration by a fresh height test that leaves the loop", "ConsumeCacheMessages|"+calleeLabel(&call.Call), a.P.InstrPos(in), ok2, why, "Re")
+					r.Check("F7", props("C17", "C13", "C08"), "a delivery inside the drain loop either cannot change the handler/height/cache, or is preceded in the same iteration by a fresh height test that leaves the loop", "ConsumeCacheMessages|"+calleeLabel(&call.Call), a.P.InstrPos(in), ok2, why, "Re")
 				}
 			}
 		}
 	}
 	if len(loops) == 0 {
 		r.Undecided = append(r.Undecided, "ConsumeCacheMessages has no loop over the cached messages (anchor)")
+	}
+	// F8: the replay is complete - the loop walks exactly the looked-up backlog and is left early only because the
+	// height moved (every cached message of the started height is delivered, none is skipped)
+	nReplay := 0
+	for _, dl := range loops {
+		l, pc := dl.l, dl.p.c
+		// only the loop that delivers (housekeeping loops over the cache are not the replay)
+		delivers := false
+		for b := range l.Body {
+			for _, in := range b.Instrs {
+				if call, ok := in.(*ssa.Call); ok && !isLoggingCall(&call.Call) {
+					if g := call.Call.StaticCallee(); g != nil && mayDeliver(a, g) {
+						delivers = true
+					}
+				}
+			}
+		}
+		if !delivers {
+			continue
+		}
+		nReplay++
+		ct := pc.Term(l.Coll)
+		okColl := ct.Op == "lookup" && len(ct.Args) == 2 && ct.Args[0].Key() == cache.Key()
+		why := ""
+		if !okColl {
+			why = "the loop does not range over the cache lookup itself but over " + PP(ct)
+		}
+		ht := heightTests(a, pc, l)
+		for b := range l.Body {
+			if b == l.Header {
+				continue
+			}
+			for si, sx := range b.Succs {
+				if l.Body[sx] {
+					continue
+				}
+				if di, isTest := ht[b]; isTest && di == si {
+					continue
+				}
+				okColl = false
+				why = "the loop is left at " + a.P.InstrPos(b.Instrs[len(b.Instrs)-1]) + " for a reason other than the height having moved; the rest of the backlog is then deleted unreplayed"
+			}
+		}
+		// the delivery is not skipped for some elements
+		delivered := false
+		for b := range l.Body {
+			for _, in := range b.Instrs {
+				if call, ok := in.(*ssa.Call); ok && !isLoggingCall(&call.Call) {
+					if g := call.Call.StaticCallee(); g != nil && mayDeliver(a, g) && l.dominatesAllLatches(b) {
+						delivered = true
+					}
+				}
+			}
+		}
+		if okColl && !delivered {
+			okColl, why = false, "some iteration reaches the next element without delivering the current one"
+		}
+		r.Check("F8.complete", props("C17"), "the drain replays the whole backlog of the started height: it ranges over the cache lookup itself, delivers every element, and is left early only through a fresh height test (height moved)", "ConsumeCacheMessages", a.P.InstrPos(l.Header.Instrs[0]), okColl, why, "P")
+	}
+	if nReplay == 0 {
+		r.Undecided = append(r.Undecided, "F8.complete: no loop over the cached messages delivers them (anchor)")
 	}
 	// F7.handler: the handler field is set before the drain and never after (a nested drain's newer handler must survive)
 	before := func(st ssa.Instruction, x ssa.Instruction) bool {
@@ -262,6 +332,49 @@ func mayDeliver(a *Analyzer, fn *ssa.Function) bool {
 	return visit(fn)
 }
 
+// heightTests: the Ifs inside the loop that compare a fresh State.Height() with the height read before the loop and
+// leave the loop when they differ; maps the testing block to the index of its "height moved" successor.
+func heightTests(a *Analyzer, c *FCtx, l *Loop) map[*ssa.BasicBlock]int {
+	res := map[*ssa.BasicBlock]int{}
+	for b := range l.Body {
+		ifi, ok := b.Instrs[len(b.Instrs)-1].(*ssa.If)
+		if !ok {
+			continue
+		}
+		cmp, ok := ifi.Cond.(*ssa.BinOp)
+		if !ok || (cmp.Op != token.EQL && cmp.Op != token.NEQ) {
+			continue
+		}
+		fresh := func(v ssa.Value) bool {
+			cl, ok := v.(*ssa.Call)
+			if !ok || !l.Body[cl.Block()] {
+				return false
+			}
+			f := cl.Call.StaticCallee()
+			return f != nil && funcID(f) == "(*state.State).Height"
+		}
+		outer := func(v ssa.Value) bool {
+			in, ok := v.(ssa.Instruction)
+			if ok && l.Body[in.Block()] {
+				return false
+			}
+			return unfreeze(c.Term(v)).Key() == Field(This("state.State"), "height").Key()
+		}
+		if !((fresh(cmp.X) && outer(cmp.Y)) || (fresh(cmp.Y) && outer(cmp.X))) {
+			continue
+		}
+		diffIdx := 0
+		if cmp.Op == token.EQL {
+			diffIdx = 1
+		}
+		if l.Body[b.Succs[diffIdx]] {
+			continue
+		}
+		res[b] = diffIdx
+	}
+	return res
+}
+
 func drainGuard(a *Analyzer, c *FCtx, l *Loop, call *ssa.Call) (bool, string) {
 	for b := range l.Body {
 		ifi, ok := b.Instrs[len(b.Instrs)-1].(*ssa.If)
@@ -285,7 +398,7 @@ func drainGuard(a *Analyzer, c *FCtx, l *Loop, call *ssa.Call) (bool, string) {
 			if ok && l.Body[in.Block()] {
 				return false
 			}
-			return c.Term(v).Key() == Field(This("state.State"), "height").Key()
+			return unfreeze(c.Term(v)).Key() == Field(This("state.State"), "height").Key()
 		}
 		var okPair bool
 		if (fresh(cmp.X) && outer(cmp.Y)) || (fresh(cmp.Y) && outer(cmp.X)) {
